@@ -58,6 +58,7 @@ func cmdCheck(args []string) {
 	tier := fs.String("tier", "", "quick | thorough")
 	evidenceDir := fs.String("evidence", "", "evidence directory (default <verif>/evidence)")
 	noStandins := fs.Bool("no-standins", false, "skip bounded stand-ins (development)")
+	replaysFlag := fs.String("replays", "", "directory for replay files (default <verif>/replays)")
 	fs.Parse(args)
 	if *prop == "" {
 		fmt.Fprintln(os.Stderr, "check: --prop required")
@@ -107,6 +108,9 @@ func cmdCheck(args []string) {
 
 	w, err := LoadWorld(*repo, *verif, cfg.Pkgs)
 	replayDir := filepath.Join(*verif, "replays", *prop)
+	if *replaysFlag != "" {
+		replayDir = filepath.Join(*replaysFlag, *prop)
+	}
 	os.MkdirAll(replayDir, 0o755)
 	var viols []violation
 	if err != nil {
